@@ -13,6 +13,10 @@ CONSTANTS
   AsyncApply = FALSE
   MaxPerRequest = 99
   RecursiveRLock = FALSE
+  Kinds = {"Unavailable"}
+  CanceledStops = FALSE
+  StartUnreachable = FALSE
+  DialOnce = FALSE
 INVARIANTS NotW3
 
 CHECK_DEADLOCK FALSE
